@@ -97,7 +97,30 @@ var scens = []scen{
 	}},
 }
 
-var flagLayer = flag.String("layer", "C20", "property that owns this layer")
+var (
+	flagLayer    = flag.String("layer", "C20", "property that owns this layer")
+	flagRacePass = flag.Int("racepass", 0, "internal (race flavour): run every scenario body N times free-running")
+)
+
+// racePass runs the scenario bodies without the scheduler (the vsched API passes
+// through to real goroutines) so that the Go race detector can observe package
+// metrics' lock-free code; a plain (non-atomic) access there has no scheduling point
+// under the cooperative scheduler.
+func racePass(n int) {
+	fails := map[string]int{}
+	runs := 0
+	for _, s := range scens {
+		for i := 0; i < n; i++ {
+			s.body()
+			runs++
+			for _, f := range vsched.PassFails() {
+				fails[s.name+": "+f]++
+			}
+		}
+	}
+	b, _ := json.Marshal(map[string]interface{}{"runs": runs, "fails": fails})
+	fmt.Printf("RACEPASS %s\n", b)
+}
 
 func main() {
 	var mcs []*mc.Scenario
@@ -108,6 +131,10 @@ func main() {
 			SigGroup: "S/" + s.name, Class: func(e string) string { return "wrong-total" }})
 	}
 	mc.ChildMain(mcs)
+	if *flagRacePass > 0 {
+		racePass(*flagRacePass)
+		return
+	}
 	r := ev.Start(*flagLayer, "model_checking")
 	var plans []mc.Plan
 	for _, s := range scens {
@@ -119,6 +146,13 @@ func main() {
 	}
 	sum := mc.RunPlans(r, mcs, plans)
 	cov := sum.Coverage("metrics.Scope used concurrently by 2-3 threads (Incr/Merge/Value on a fresh scope) with every atomic operation of package metrics a scheduling point; all schedules up to the stated preemption / delay bound modulo happens-before equivalence")
+	n := "2000"
+	if r.Thorough() {
+		n = "20000"
+	}
+	if race := ev.RunRacePass(r, "c20s-race", []string{"-racepass", n}, []string{"2", "4", "16"}, "C20/S"); race != nil {
+		cov["race_pass"] = race
+	}
 	out := map[string]interface{}{"coverage": cov, "violations": r.Violations(), "machinery": sum.Machinery, "violation_list": r.Pending()}
 	b, _ := json.Marshal(out)
 	fmt.Printf("LAYER %s\n", b)
